@@ -161,6 +161,45 @@ def run(tier, replay=None):
         data = W.enc_header(b'C' * 8, b'D' * 8, first, 2, 0, rnd.choice((34, 35, 36, 37)), rnd.choice((0, 8, 0x20, 0x28)), rnd.randrange(4), 28 + len(chain)) + chain
         stats['structured_random'] += 1
         go(data, 'structured', both=False)
+    # (5) "in time linear in the input length" where the executed-line budget cannot see it (work done inside built-in operations): well-formed, correctly
+    #     sealed messages whose repeated elements are all different, at size n and 8n - the parse time may grow 8-fold, not 64-fold
+    import time
+    import wirevec
+    cr, keys = wirevec.make_crypto(256, 12)
+
+    def sealed(inner):
+        return W.enc_message({'spi_i': b'A' * 8, 'spi_r': b'B' * 8, 'xchg': 37, 'response': False, 'initiator': True, 'mid': 1}, [],
+                             sk={'ke': keys['ke'], 'ka': keys['ka'], 'integ': keys['integ'], 'iv': b'\x34' * 16, 'inner': inner})
+
+    def best(data, crypto):
+        t = []
+        for _ in range(3):
+            t0 = time.perf_counter()
+            try:
+                V.M.Message.parse(data, crypto=crypto)
+                kind = 'ok'
+            except Exception as ex:      # noqa: B902 - only the time matters here; outcome classes are judged by the other families
+                kind = type(ex).__name__
+            t.append(time.perf_counter() - t0)
+        return min(t), kind
+    shapes = {
+        'DELETE with n distinct SPIs': lambda n: [{'t': W.DELETE, 'proto': 3, 'spis': [i.to_bytes(4, 'big') for i in range(1, n + 1)]}],
+        'n VENDOR payloads': lambda n: [{'t': W.VENDOR, 'data': i.to_bytes(4, 'big')} for i in range(n)],
+        'n NOTIFY payloads': lambda n: [{'t': W.NOTIFY, 'proto': 0, 'spi': b'', 'ntype': 40000 + (i % 20000), 'data': i.to_bytes(4, 'big')} for i in range(n)],
+    }
+    scaling = {}
+    for name, mk in shapes.items():
+        n0 = 1500 if 'DELETE' in name else 500
+        small, big = sealed(mk(n0)), sealed(mk(8 * n0))
+        if len(big) > 65000:
+            raise common.MachineryError('scaling input exceeds a datagram')
+        (t1, k1), (t8, k8) = best(small, cr), best(big, cr)
+        stats['scaling'] = stats.get('scaling', 0) + 2
+        scaling[name] = {'octets': [len(small), len(big)], 'seconds': [round(t1, 4), round(t8, 4)], 'outcome': [k1, k8]}
+        if t8 > 0.25 and t8 > 24 * max(t1, 1e-4):
+            v.violation(f'parse time is not linear in the input length: {name}: {len(small)} octets in {t1 * 1000:.1f} ms, {len(big)} octets in {t8 * 1000:.1f} ms '
+                        f'({t8 / max(t1, 1e-4):.0f} times for 8 times the input)', {'shape': name}, signature={'component': 'parse:superlinear', 'shape': name.split()[0]})
+    v.coverage['scaling'] = scaling
     v.coverage.update({'evaluations': sum(outcomes.values()), 'distinct_nontrivial': len(distinct), 'families': stats, 'outcomes': outcomes,
                        'rule': 'Wire.tla LenMut/NextMut families (chain verdict from ParseChain) + every 16-bit field position of authentic datagrams of each '
                                'exchange set to {0..5, cur-1, cur+1, 0xFFFF} + every truncation + octet mutations {^01, ^80, =00, =FF} + inner chains mutated and '
